@@ -139,6 +139,13 @@ MUST_FIRE = [
      "            self.clf_ = ParzenWindowClassifier(\n                metric=\"precomputed\",\n                classes=self.clf.classes,\n                missing_label=self.clf.missing_label,\n                cost_matrix=self.clf.cost_matrix,\n                class_prior=self.clf.class_prior,\n                random_state=self.clf.random_state,\n            )\n"),
     ("ssw-ratio-over-all-samples", ["C20"], ["R20.2"], P + "pool/_wrapper.py",
      "max_candidates = ceil(len(candidates) * self.max_candidates)", "max_candidates = ceil(len(X) * self.max_candidates)"),
+    ("sample-y-seed-truthiness", ["C15"], ["R15.5"], P + "base.py",
+     "        rv_samples = rv.rvs(\n            size=(n_samples, len(X)), random_state=random_state\n        )",
+     "        random_state = random_state or self.random_state\n        rv_samples = rv.rvs(\n            size=(n_samples, len(X)), random_state=random_state\n        )"),
+    ("sklreg-fallback-input-dtype", ["C15"], ["R15.4"], P + "regressor/_wrapper.py",
+     "                return np.full(len(X), self._label_mean)\n", "                return np.full(len(X), self._label_mean, dtype=X.dtype)\n"),
+    ("nic-zero-weight-check-unmasked-c15", ["C15"], ["R15.6"], P + "regressor/_nic_kernel_regressor.py",
+     "if np.sum(self.weights_) == 0:", "if np.sum(sample_weight) == 0:"),
     # ---- C03
     ("split-set-state-deleted", ["C03"], ["R3"], BZ,
      "        self.random_state_.set_state(random_state_state)\n", "        pass\n"),
